@@ -166,9 +166,10 @@ def run(repo: Repo, chk: Check) -> None:
     # callers of unforge_address and the byte length they can feed (informational + anchors)
     callers = []
     for fi in repo.iter_functions('pytezos.michelson'):
-        for c in [n for n in ast.walk(fi.node) if isinstance(n, ast.Call)]:
-            d = dotted(c.func)
-            if d and repo.resolve_name(fi.module, d) == f'{FORGE}.unforge_address':
+        # (a use: called directly, or handed to a table / functools.partial that calls it)
+        for c in [n for n in ast.walk(fi.node) if isinstance(n, (ast.Name, ast.Attribute)) and isinstance(getattr(n, 'ctx', None), ast.Load)]:
+            d = dotted(c)
+            if d and repo.canonical(repo.resolve_name(fi.module, d)) == repo.canonical(f'{FORGE}.unforge_address'):
                 callers.append(fi.qualname)
     chk.note('unforge_address_callers', sorted(set(callers)))
     chk.require(any('KeyHashType' in c for c in callers), 'KeyHashType no longer calls unforge_address: 21-byte call site moved')
